@@ -990,3 +990,41 @@ def c10(run, selftest=True):
         deriveopts_stage(run, fo, lambda m: not is_totality(m), selftest and fo == "cont")
     run.assumptions = DO_ASSUME
     return run.finish("model_checking", DO_RULE)
+
+
+# =====================================================================================================
+# C19 - usage analysis and emitted bounds
+# =====================================================================================================
+
+@plan("C19")
+def c19(run, selftest=True):
+    run.build()
+    q = run.tier == "quick"
+    res = run.tlc("Usage", "SPECIFICATION Spec\nCONSTANTS\n  MaxDepth = %d\n  EMIT = TRUE\nINVARIANTS C19_Exact C19_Union C19_Lifetimes EmitAll\nCHECK_DEADLOCK FALSE\n" % (3 if q else 4),
+                  "usage", workers=8, timeout=3000)
+    run.require_tlc_ok(res, "Usage")
+    r = run.vh("replay", "usage", res["out"], timeout=3000)
+    run.add_replay_result("usage", r)
+    if selftest:
+        def flip(case):
+            s = case["expect"]["sets"]["T"]
+            if s["bound"] == [] and s["declare"] == ["T"]:
+                s["bound"] = ["T"]
+                return True
+            return False
+        tagged_selftest(run, "usage", res["out"], flip, "expect a parameter inside a qualified self to count for bounds", ["replay", "usage"])
+    os.remove(res["out"])
+    res = run.tlc("ImplBounds", simple_cfg("C19_Bounds EmitDone"), "implbounds", workers=2)
+    run.require_tlc_ok(res, "ImplBounds")
+    r = run.vh("replay", "implbounds", res["out"], timeout=3000)
+    run.add_replay_result("implbounds", r)
+    os.remove(res["out"])
+    run.assumptions = ["type terms are printed as Rust and parsed with syn; `for<..>` binders never reuse a declared lifetime's name (Rust forbids the shadowing)",
+                       "ImplBounds takes 'which parameters a field's type uses' as data (decided by Usage.tla) and materialises each use set with several concrete types"]
+    return run.finish(
+        "model_checking",
+        "types: every chain of up to 3 (quick) / 4 (thorough) constructors out of 19 (references with / without / with a foreign lifetime, pointers, slices, arrays, parentheses, tuples, three bare-fn forms "
+        "incl. a for<> binder, generic arguments on the last / a middle segment / of a global path, associated-type bindings, const arguments, constraints, qualified self, two trait-object forms) around 9 leaves "
+        "(T, U, a non-parameter, ::T, m::T, T::Item, a macro, !, _): TLC checks the transcribed recursion against the role-based declarative definition for 4 query sets x 2 purposes and for lifetimes; every term is "
+        "printed, parsed and analysed by the real code (uses_*, collect_*). Bounds: 231 struct / enum receivers over skip flags on fields and variants x 6 derives: impl generics, where-clause and the set of "
+        "parameters that received the conversion bound. A case is one type term / one receiver.")
